@@ -166,6 +166,54 @@ def grammar_doc(rng, els, ats, size):
     return '<svg %s %s>%s</svg>' % (NS, root_attrs, body)
 
 
+# ------------------------------------------------------------------------------------------------ text structure
+TEXT_CHARS = ['a', 'Text', ' ', '  two  words ', 'x y', '\u00e9\u00e8', '\u4e2d\u6587', '\U0001F600', 'e\u0301', '\u0627\u0644\u0639', 'fi', '\t\n', 'A' * 12, '&amp;', '&#x202e;ab']
+INVISIBLE = ['display="none"', 'transform="scale(0)"', 'transform="matrix(1 2 2 4 0 0)"', 'systemLanguage="de"', 'systemLanguage="en"',
+             'systemLanguage="ru, de"', 'requiredExtensions="x"', 'visibility="hidden"', 'visibility="collapse"', 'font-size="0"',
+             'opacity="0"', 'style="display:none"', 'systemLanguage=""']
+
+
+def numlist(rng):
+    n = rng.choice([0, 1, 1, 2, 3, 5, 9, 40])
+    return ' '.join(rng.choice(['0', '5', '10.5', '-3', '1e3', '50%', '2em', '1e38']) for _ in range(n))
+
+
+def text_doc(rng):
+    """mixed content (text, tspan, text, ...) nested 1-3 deep, invisible / conditional spans on inner and outer levels,
+    position and rotate lists of varying lengths, multi-byte characters, both xml:space values"""
+    def attrs(depth):
+        a = []
+        if rng.below(3) == 0:
+            a.append(rng.choice(INVISIBLE))
+        for name in ('x', 'y', 'dx', 'dy', 'rotate'):
+            if rng.below(4) == 0:
+                a.append('%s="%s"' % (name, numlist(rng)))
+        if rng.below(6) == 0:
+            a.append('xml:space="%s"' % rng.choice(['preserve', 'default']))
+        if rng.below(8) == 0:
+            a.append(rng.choice(['text-anchor="middle"', 'writing-mode="tb"', 'letter-spacing="5"', 'word-spacing="1e38"', 'baseline-shift="super"',
+                                 'dominant-baseline="no-change"', 'text-decoration="underline"', 'font-size="1e-40"', 'textLength="5"',
+                                 'unicode-bidi="bidi-override" direction="rtl"', 'fill="url(#g)"', 'stroke="red"', 'font-family="Noto Sans"']))
+        return (' ' + ' '.join(a)) if a else ''
+
+    def content(depth):
+        out = ''
+        for _ in range(1 + rng.below(5)):
+            r = rng.below(10)
+            if r < 5 or depth >= 3:
+                out += rng.choice(TEXT_CHARS)
+            else:
+                tag = rng.choice(['tspan', 'tspan', 'tspan', 'a', 'tref', 'textPath'] if depth == 0 else ['tspan', 'tspan', 'a', 'tref'])
+                extra = ' xlink:href="#%s"' % rng.choice(['p', 't0', 'nope']) if tag in ('tref', 'textPath') else ''
+                out += '<%s%s%s>%s</%s>' % (tag, attrs(depth + 1), extra, content(depth + 1), tag)
+        return out
+    texts = ''.join('<text id="t%d" x="10" y="%d"%s>%s</text>' % (i, 20 + 20 * i, attrs(0), content(0)) for i in range(1 + rng.below(3)))
+    wrap = rng.choice(['%s', '<g %s>%%s</g>' % rng.choice(INVISIBLE), '<switch>%s<text>fallback</text></switch>', '<g font-size="1e30">%s</g>'])
+    return ('<svg %s width="100" height="100" xml:space="%s"><path id="p" d="M 10 50 C 30 10 70 90 90 50"/>'
+            '<linearGradient id="g"><stop offset="0"/><stop offset="1" stop-color="red"/></linearGradient>%s<use xlink:href="#t0" y="30"/></svg>'
+            % (NS, rng.choice(['default', 'preserve']), wrap % texts))
+
+
 # ------------------------------------------------------------------------------------------------ nesting / bombs / entities
 def nesting_docs():
     out = []
@@ -265,6 +313,6 @@ def malformed(rng, seeds):
     return out
 
 
-OPTION_SETS = ['-', 'dpi=10', 'dpi=72', 'dpi=300', 'dpi=4000', 'dw=1;dh=1', 'dw=10000;dh=3', 'lang=ru,de', 'lang=',
+OPTION_SETS = ['-', 'lang=de', 'lang=en', 'dpi=10', 'dpi=72', 'dpi=300', 'dpi=4000', 'dw=1;dh=1', 'dw=10000;dh=3', 'lang=ru,de', 'lang=',
                'css=' + '*{stroke-width:1e300;fill:url(#g1)} rect{marker:url(#g2);font:bold 1e40px x}'.encode().hex(),
                'css=' + 'svg{display:none}'.encode().hex(), 'nofonts', 'nofonts;dpi=4000', 'fs=0', 'fs=1e30']
